@@ -209,6 +209,6 @@ pub fn arb_case(p: TreeParams) -> BoxedStrategy<Case> {
 
 fn run(ctx: &mut Ctx) {
     let cases = ctx.share(ctx.tier.pick(250_000, 2_500_000));
-    let p = ctx.tier.pick(TreeParams::small(), TreeParams::quick());
+    let p = ctx.tier.pick(TreeParams::small(), TreeParams::quick()).with_big(2);
     run_strategy(ctx, "C17", "batches", cases, arb_case(p), check);
 }
